@@ -213,9 +213,12 @@ func zzH_C05_penalty() {
 		v, _, _, _ = s.UpdateDelegation(d, v, dlg)
 	}
 	// pending withdrawals of the validator itself and of the delegator
-	r1 := &state.WithdrawRecord{Operator: common.Address{1}, Validator: zzValAddr(1), Nonce: 1, InitialBalance: zzverif.Big("w1", 90), Finished: 0}
+	// (a finished record has been paid out already but is retained in the queue with its FinalBalance)
+	f1, f2 := zzverif.U8("w1.finished"), zzverif.U8("w2.finished")
+	zzverif.Assume(f1 <= 1 && f2 <= 1)
+	r1 := &state.WithdrawRecord{Operator: common.Address{1}, Validator: zzValAddr(1), Nonce: 1, InitialBalance: zzverif.Big("w1", 90), Finished: f1}
 	r1.FinalBalance = new(big.Int).Set(r1.InitialBalance)
-	r2 := &state.WithdrawRecord{Operator: d, Delegator: d, Validator: zzValAddr(1), Nonce: 2, InitialBalance: zzverif.Big("w2", 90), Finished: 0}
+	r2 := &state.WithdrawRecord{Operator: d, Delegator: d, Validator: zzValAddr(1), Nonce: 2, InitialBalance: zzverif.Big("w2", 90), Finished: f2}
 	r2.FinalBalance = new(big.Int).Set(r2.InitialBalance)
 	s.AddWithdrawRecord(r1)
 	s.AddWithdrawRecord(r2)
@@ -232,6 +235,7 @@ func zzH_C05_penalty() {
 	left.Add(left, new(big.Int).Sub(w1, r1.FinalBalance))
 	left.Add(left, new(big.Int).Sub(w2, r2.FinalBalance))
 	zzverif.Assert(left.Cmp(total) == 0, "the total equals what left the stake, the delegations and the pending withdrawals")
+	zzverif.Assert((f1 == 0 || r1.FinalBalance.Cmp(w1) == 0) && (f2 == 0 || r2.FinalBalance.Cmp(w2) == 0), "nothing is taken from a withdrawal that has already been paid out")
 	zzverif.Assert(nv.Token.Sign() >= 0 && nv.SelfToken.Sign() >= 0 && r1.FinalBalance.Sign() >= 0 && r2.FinalBalance.Sign() >= 0, "no balance goes negative")
 	sum, ssum := new(big.Int).Set(nv.SelfToken), new(big.Int).Set(nv.SelfStake)
 	for _, df := range nv.Delegations {
